@@ -11,6 +11,7 @@ EPS = 0.001
 # delays (after a write) constructed around the timers that can be running, incl. exact coincidences
 DELAYS = (0.0, 0.001, 0.01, 0.05, 0.2) + tuple(x for T in TIMERS for x in (T - EPS, T, T + EPS)) + (1.5, 3.5, 7.5, 9.0)
 TIMEOUTS = (0.05, 0.3, 0.5, 0.501, 0.75, 1.0, 1.5, 2.0, 3.5, 4.0, 7.5, 8.0, 20.0, 35.0)
+ABANDON_AFTER = (0.0, 0.001, 0.02, 0.3, 0.5, 0.501, 0.75, 1.0, 1.5, 2.5, 3.5, 7.0, 15.0)  # seconds after the call
 CALL_TIMES = (0.0, 0.0, 0.0, 0.001, 0.01, 0.25, 0.5, 0.51, 1.0, 1.5, 2.0, 3.5, 5.0, 7.5, 12.0)
 
 
@@ -60,6 +61,10 @@ def schedule(draw: Any, *, max_callers: int = 8, faults: bool = True, big_queue:
             "timeout": draw(st.sampled_from(TIMEOUTS)),
             "wait": draw(st.sampled_from((None, False, True, True))),
         })
+    if faults and draw(st.integers(0, 3)) == 0:  # the application abandons some of its sends (outer wait_for / cancel)
+        for c in callers:
+            if draw(st.integers(0, 2)) == 0:
+                c["abandon"] = draw(st.sampled_from(ABANDON_AFTER))
     fates = {}
     for i, c in enumerate(callers):
         mode = draw(st.integers(0, 4))
@@ -134,6 +139,8 @@ def classify(case: dict) -> list[str]:
         out.append("sched:pause")
     if case.get("id_unknown"):
         out.append("sched:gwy-id-unknown")
+    if any(c.get("abandon") is not None for c in case["callers"]):
+        out.append("sched:abandoned-send")
     if len(case["callers"]) >= 3:
         out.append("sched:3+callers")
     if len(case["callers"]) >= 9:
